@@ -53,7 +53,7 @@ NameExp(n) ==
 
 \* EventMask as a set of events: Set / Clear / IsSet, and PrettyString - the names in bit order (the order of Events),
 \* comma separated, which ParseEventMask reads back to the same mask; a bit beyond the last event is printed as unknown(0x..)
-\* and is not readable again
+\* and is not readable again.  Bit 14 is the position of the sentinel Event_LAST: not an event (ValidEvents ends at bit 13)
 MaskExp(set, clr) == set \ clr
 PrettyExp(m) == SelectSeq(Events, LAMBDA e : e \in m)
 
@@ -91,7 +91,7 @@ NameScen == {[kind |-> "plugin-name", key |-> k] :
 MaskSubsets == {{}, {"RunPodSandbox"}, {"PostUpdatePodSandbox"}, {"CreateContainer", "StopContainer"}, PodEvents, CtrEvents, EventSet,
                 EventSet \ {"UpdateContainer"}}
 MaskScen == {[kind |-> "mask", set |-> PrettyExp(a), clr |-> PrettyExp(b), extra |-> x] :
-               a \in MaskSubsets, b \in MaskSubsets, x \in {FALSE, TRUE}}
+               a \in MaskSubsets, b \in MaskSubsets, x \in {"none", "b20", "b14"}}
 Scenarios == CASE Mode = "parse" -> ParseScen [] Mode = "misc" -> MarkScen \cup CmpDevScen \cup HooksScen \cup NameScen
                [] Mode = "mask" -> MaskScen
                [] Mode = "mounts" -> CmpMountScen
